@@ -114,6 +114,7 @@ def main():
     ap.add_argument("--files", default="")
     ap.add_argument("--out", default="/tmp/mut/results.jsonl")
     ap.add_argument("--timeout", type=int, default=150)
+    ap.add_argument("--only-survivors", default="", help="results file(s): re-run exactly the mutants recorded there as survived")
     ap.add_argument("--skip", default="", help="results file(s) of earlier runs, comma separated: mutants listed there are not run again")
     a = ap.parse_args()
     anc = anchors()
@@ -134,6 +135,23 @@ def main():
             except Exception:
                 pass
     allc = [c for c in allc if (c[0], c[1] + 1, c[2]) not in seen]
+    if a.only_survivors:
+        keep = set()
+        for sf in [x for x in a.only_survivors.split(",") if x]:
+            for l in open(sf):
+                try:
+                    r = json.loads(l)
+                    if r.get("status") == "survived":
+                        keep.add((r["file"], r["line"], r["op"], r["old"]))
+                except Exception:
+                    pass
+        lines_of = {}
+        def old_of(c):
+            f = c[0]
+            if f not in lines_of:
+                lines_of[f] = open(os.path.join("/repo", f)).read().split("\n")
+            return lines_of[f][c[1]].strip()
+        allc = [c for c in allc if (c[0], c[1] + 1, c[2], old_of(c)) in keep]
     rnd = random.Random(a.seed)
     rnd.shuffle(allc)
     chosen = allc[: a.n]
